@@ -591,7 +591,6 @@ struct OptSubject {
         e.observe(eo);
         std::uint64_t h = vf::mix(vf::mix(nh, (std::uint64_t)(st + 1000)), vf::mix(op, vf::mix(vf::mix(a.v, a.y), vf::mix(a.q, a.f))));
         vf::cover(label(op), h, true);
-        if (vf::want_sample(label(op))) { vf::sample(label(op), "state=%lld (-1 = empty) v=%d other-state=%d qualifier=%d flag=%d", st, a.v, a.y, a.q, a.f); }
         if (!compare(eo, so)) { e.rebuild(s.x->has_value(), state()); }
     }
 };
@@ -625,7 +624,8 @@ void run_case(vf::Case& c)
 {
     if (c.enumerated) {
         bool th = c.tier == vf::Tier::thorough;
-        enumerate_first_op<Subject>((unsigned)c.index, th ? 4 : 3, th ? 2 : 3);
+        enumerate_first_op<Subject>((unsigned)c.index, 3, 3);
+        if (th) { enumerate_first_op<Subject>((unsigned)c.index, 4, 1); } // deeper, single payload value
     } else {
         random_history<Subject>(c.rng, 50, 3);
     }
